@@ -14,7 +14,7 @@ CLAIMS = {
    note="allocation-state projection on a sample of crash images; known finding C11/integrity-false-after-unpersisted-growth is reported separately", ref="DESIGN.md 4/C11"),
  "C10": dict(cat="exploration", tech="TLA+ predicates Forest.tla (well-formed checksummed forest) evaluated by TLC (ForestTrace.tla) on images that an independent decoder (/verif/decoder, written from docs/design.md, own XXH3) extracts from the storage bytes after every durable commit, compaction and clean close of random histories",
    text="exploration with a specification oracle: the storage bytes are decoded without redb's reader, and TLC decides Forest!WellFormed (strictly increasing keys, routing keys bound both subtrees, equal leaf depth, counts, no page referenced twice / overlapping, every checksum from slot to leaf) on each image; damaged copies of real images must be rejected in every run.",
-   note="a static-structure property: the specification is the judge of decoded images, the histories are sampled; inline multimap value order not decoded", ref="DESIGN.md 4/C10"),
+   note="a static-structure property: the specification is the judge of decoded images, the histories are sampled; user keys u64/bytes/str", ref="DESIGN.md 4/C10"),
  "C18": dict(cat="model_checking", tech="TLA+ spec (Kv.tla gap-cursor actions CurOpen/CurOp/CurClose/RCursor) as oracle: exhaustive enumeration of cursor sessions (content x bound x entry point x operation sequence) executed on the real table and validated by TLC trace validation, plus random long sessions",
    text="every session of up to 2 (thorough: 3) cursor operations from every content over 3-4 keys, every bound and both entry points is run on the real code and judged by TLC against the sorted-map cursor of Kv.tla, including the table read back after close/drop; random histories add long insert runs in both directions (internal batching), big values and all table types.",
    note="needs the experimental_cursor feature build (harness/target-cursor); storage errors inside a session not injected", ref="DESIGN.md 4/C18"),
